@@ -61,6 +61,7 @@ def run(repo, rep, tier):
     from . import c03 as _c03
     L.borrow(repo, rep, "R18.3", "C03", _c03.parser_details,
              ("unclosed-counts-one",))
+    L.option_defaults_rule(repo, rep, "R18.2", ("enable_data_attributes", "restricted_namespace"))
     L.state_rule(repo, rep)
 
 
